@@ -1,4 +1,5 @@
 import Restli.Proofs.EndToEnd
+import Restli.Proofs.EndToEndCodec
 import Restli.Props.C01
 import Restli.Props.C05
 import Restli.Props.C15
@@ -261,6 +262,19 @@ theorem c02_url_law_for_call (K : Consts) (N : NumLaws) (env : Env) (cfg : Cfg) 
     · rcases pathSegsB_mem _ _ _ s h with ⟨y, hy, rfl⟩ | hx
       · exact (hnames y hy).2
       · exact hnd s hx
+
+/-- **The keys of a call come back** (the first third of `hcodec` below, as a theorem): the texts
+the generated client writes for the entity keys of a resource path — each key on a path writer of
+its own, a key that is exactly `.` or `..` as `%2E`/`%2E%2E` — are decoded by the generated
+`UnmarshalResourcePath` to the caller's keys (normalised: NaN canonical, entries of a complex key in
+key order), for every key type of every schema. From C01's byte-level round trip for values read at
+position 0 (`ror2_roundtrip_any`), `FloatLaws` being C01's hypothesis about strconv. -/
+theorem c02_keys_read_back (F : Codec.FloatLaws) (env : Env) (hS : Codec.schemaOKb env = true)
+    (tys : List Ty) (keys : List Value) (texts : List Bytes) (hv : ∀ k ∈ keys, Codec.ValOK k)
+    (ht : keyTexts constsV2 env tys keys = some texts) :
+    decodeKeys env tys texts = .ok (List.zipWith (Codec.norm env encFuel) tys keys) :=
+  decodeKeys_keyTexts constsV2 rfl (Codec.escLaws_path Escape.tablesV2 Escape.c01_tables_ok_v2) F env
+    (Codec.schemaOK_of_check env hS) tys keys texts hv ht
 
 /-- **End-to-end, request direction.** For every registered resource shape, method kind, call, context
 path and tunnelling threshold: if the client marshals the call (key texts `texts`, parameter pairs
